@@ -263,8 +263,16 @@ pub fn encode_well_formed(enc: &'static Encoding, text: &[char]) -> Vec<u8> {
             let mut guard = 0usize;
             loop {
                 guard += 1;
-                let (res, read, written) =
-                    encoder.encode_from_utf8_without_replacement(&s[total_read..], &mut out[total_written..], true);
+                // the encoder is code under test: a panic in it must not take the
+                // harness down (the workload just ends here)
+                let r = crate::sink::guard(|| encoder.encode_from_utf8_without_replacement(&s[total_read..], &mut out[total_written..], true));
+                let (res, read, written) = match r {
+                    Ok(t) => t,
+                    Err(_) => break,
+                };
+                if total_read + read > s.len() || total_written + written > out.len() || !s.is_char_boundary(total_read + read) {
+                    break;
+                }
                 total_read += read;
                 total_written += written;
                 match res {
